@@ -41,6 +41,18 @@ EndsInNewline(out) ==
 
 ContainsContent(out) == \E i \in DOMAIN out : IsTextual(out[i])
 
+\* is there nothing but tags, glue and whitespace after the last newline (or at all)?  A newline pushed now would
+\* end an empty line: it is dropped.  (The engine decides this with EndsInNewline \/ ~ContainsContent on a stream
+\* that it restarts for every line - a tag after a newline always ends the line and rewinds - which comes to the
+\* same thing; stated this way the rule also holds for the stream of a whole turn.)
+RECURSIVE NoContentSinceNewline(_)
+NoContentSinceNewline(out) ==
+  IF out = <<>> THEN TRUE
+  ELSE LET it == Last(out) IN
+       IF it.k = "nl" THEN TRUE
+       ELSE IF NonWs(it) THEN FALSE
+       ELSE NoContentSinceNewline(Front(out))
+
 \* index of the glue that is still "open" (no string start after it), 0 if none
 RECURSIVE GlueIndex(_)
 GlueIndex(out) ==
@@ -87,7 +99,7 @@ Push(out, it, fnStart) ==
             IF it.k = "nl" THEN [out |-> out, fnDone |-> FALSE]
             ELSE IF NonWs(it) THEN [out |-> Append(IF g # 0 THEN RemoveGlue(out) ELSE out, it), fnDone |-> fnStart # 0]
             ELSE [out |-> Append(out, it), fnDone |-> FALSE]
-       ELSE IF it.k = "nl" /\ (EndsInNewline(out) \/ ~ContainsContent(out)) THEN [out |-> out, fnDone |-> FALSE]
+       ELSE IF it.k = "nl" /\ NoContentSinceNewline(out) THEN [out |-> out, fnDone |-> FALSE]
        ELSE [out |-> Append(out, it), fnDone |-> FALSE]
 
 \* at the end of a function call: whitespace and newlines produced at its end are dropped
